@@ -130,6 +130,22 @@ HARNESSES = [
          bound="undo block 48 bytes (hook H4), 0..3 keys of 1..2 undo blocks in up to two key blocks, fs block size 16/48, "
                "fs offset 0 or any non-zero value < 2^40, one flipped bit at a symbolic position per damage class"),
 ]
+def _e2fsck_main_undo():
+    """e2fsck -z across the restart after journal replay (source harness/C13/main_e2fsck_full.c): every kept open of the device goes
+    through the undo manager on every pass through restart:"""
+    p = _os.path.join(_os.path.dirname(_os.path.abspath(__file__)), "..", "C13", "spec.py")
+    sp = _ilu.spec_from_file_location("spec_C13_for_C12", p)
+    m = _ilu.module_from_spec(sp)
+    sp.loader.exec_module(m)
+    for h in m.HARNESSES:
+        if h["name"] == "main_e2fsck_full":
+            d = dict(h)
+            d["name"] = "e2fsck_main_undo"
+            d["src"] = "../C13/main_e2fsck_full.c"
+            d["configs"] = [{"RST": 2}, {"RST": 0, "_tier": "thorough"}]
+            return [d]
+    raise RuntimeError("C13 main_e2fsck_full harness missing")
+HARNESSES += _e2fsck_main_undo()
 HARNESSES += _e2undo("C12")   # the real main() of misc/e2undo.c (sources in harness/E2UNDO)
 
 MANIFEST = {
